@@ -22,7 +22,7 @@ def judge_traces(rep, traces, wd):
         part = traces[b:b + step]
         path = os.path.join(wd, 'rtraces.json')
         with open(path, 'w') as f:
-            json.dump([{k: t[k] for k in ('blocks', 'ev', 'obs', 'full')} for t in part], f, separators=(',', ':'))
+            json.dump([{k: t[k] for k in ('blocks', 'flags', 'ev', 'obs', 'full')} for t in part], f, separators=(',', ':'))
         r = tlc.run(os.path.join(tlc.SPEC, 'rzx'), 'RzxTrace', 'RzxTrace.cfg', env={'CASES': path}, tag='RzxTrace', timeout=3000, heap='12g')
         tlc.check_machinery(r, 'RzxTrace')
         rep.add_tlc(r, 'RzxTrace', traces=len(part))
@@ -33,7 +33,10 @@ def judge_traces(rep, traces, wd):
         if r.distinct != expect:
             raise MachineryError('RzxTrace: expected %d states, TLC found %d\n%s' % (expect, r.distinct, r.out[-3000:]))
         for i, (l, clause) in failed.items():
-            bad.append((part[i], l, clause))
+            if clause == 'noclaim':
+                rep.drift += 1
+            else:
+                bad.append((part[i], l, clause))
     return bad
 
 
@@ -59,7 +62,7 @@ def run(tier):
             box['ex'] = ex
     th = threading.Thread(target=mc)
     th.start()
-    per = 7 if tier == 'quick' else 110
+    per = 7 if tier == "quick" else 250
     with mp.get_context('fork').Pool(16) as pool:
         parts = pool.map(rzxdrv.campaign, [(sd * 131 + k, per, wd, tier) for k in range(16)])
     log('C20: campaign done at %.1fs' % rep.timer.s())
@@ -115,6 +118,9 @@ def run(tier):
                     % ('--python ' if c['impl'] == 'py' else '', '--cmio' if c['cmio'] else '', c['flags'], c['k'], c['key'], slim(c)['frames'],
                        clause, c['werr'], c['rerr']))
             key = 'stop:%s:%s' % (c['fmt'][0], clause)
+            if c['fmt'][0] == 'z80' and c['fmt'][1] == 1 and any(b['regs'][15] == 0 for b in c['bounds'][c['k'] - 1:c['k'] + 2]):
+                # a version 1 .z80 header cannot say PC = 0: known limit of re-writing the embedded snapshot in its own version
+                key = 'stop:z80v1-pc0:%s' % clause
         else:
             what = 'rzxinfo --frames on %s (%s): %s %s' % (c['of'], c['key'], clause, c['err'])
             key = 'info:%s' % clause
